@@ -24,6 +24,10 @@ const (
 	NullMiddle = "middle" // neither first nor last of three
 	NullLast   = "last"   // last of several
 	NullBoth   = "both"   // first and last of several
+	// the only null literal of the method is a branch of a returned conditional expression
+	NullTernaryElse   = "ternary-else"        // return ok ? v : null;
+	NullTernaryThen   = "ternary-then"        // return ok ? null : v;
+	NullTernaryNested = "ternary-nested-else" // return a ? v : b ? w : null;
 )
 
 // Position of the null annotation among the annotations of a method.
@@ -173,7 +177,9 @@ func Generate(r *run.Rand, o Opts) *Project {
 			switch c.Kind {
 			case KindUtil:
 				// a name may say Service as well: static helpers around a service are still a utility class
-				c.Name = r.Pick([]string{noun + "Util", noun + "Utils", noun + "Util", noun + "Utils", noun + "ServiceUtil", noun + "ServiceUtils", "ServiceUtils", "WebServiceUtil"})
+				// ... and Util/Utils need not be the last word of the name (DateUtilImpl, JsonUtilsV2) nor the first (UtilDate)
+				c.Name = r.Pick([]string{noun + "Util", noun + "Utils", noun + "Util", noun + "Utils", noun + "ServiceUtil", noun + "ServiceUtils", "ServiceUtils", "WebServiceUtil",
+					noun + "UtilImpl", noun + "UtilsV2", noun + "UtilsImpl", noun + "UtilHelper", "Util" + noun})
 			case KindService:
 				c.Name = noun + r.Pick([]string{"Service", "ServiceImpl"})
 			case KindAbstract:
@@ -604,8 +610,8 @@ func (g *gen) fillBody(m *Method, isRef bool) {
 		}
 		add("return " + val() + ";")
 	default:
-		shape := r.Intn(12)
-		if shape >= 7 {
+		shape := r.Intn(15)
+		if shape >= 7 && shape < 12 {
 			shape = 0 // most reference-returning methods never return null
 		}
 		if shape == 0 && r.Chance(1, 3) {
@@ -652,6 +658,32 @@ func (g *gen) fillBody(m *Method, isRef bool) {
 				m.NullReturn = NullFirst
 				add("while (n > 0) {", "    n = n - 1;", "    if (n == 5) {", "        return null;", "    }", "}", "return "+val()+";")
 			}
+		case 12, 13:
+			// a returned conditional expression whose else / then / innermost else branch is the null literal; it is
+			// the only null the method returns. Conditions do not mention null.
+			tc := func() string { return r.Pick([]string{"flag", "!flag", "n > 0", "n == 3"}) }
+			if r.Chance(1, 3) {
+				add("if (n > 7) {", "    return "+val()+";", "}")
+			}
+			var e string
+			switch r.Intn(4) {
+			case 0, 1:
+				m.NullReturn = NullTernaryElse
+				e = tc() + " ? " + val() + " : null"
+			case 2:
+				m.NullReturn = NullTernaryThen
+				e = tc() + " ? null : " + val()
+			default:
+				m.NullReturn = NullTernaryNested
+				e = "n > 1 ? " + val() + " : " + tc() + " ? " + val() + " : null"
+			}
+			if r.Chance(1, 5) {
+				e = "(" + e + ")"
+			}
+			add("return " + e + ";")
+		case 14:
+			// control: a conditional return without any null
+			add("return " + r.Pick([]string{"flag", "n > 0"}) + " ? " + val() + " : " + val() + ";")
 		default:
 			m.NullReturn = NullBoth
 			add("if (flag) {", "    return null;", "}", "if (n > 4) {", "    return "+val()+";", "}", "return null;")
@@ -733,6 +765,8 @@ func SelfCheck(p *Project) error {
 			for _, l := range m.Body {
 				t := strings.TrimSpace(l)
 				if strings.HasSuffix(t, "return null;") {
+					nullReturns++
+				} else if strings.HasPrefix(t, "return") && strings.Contains(t, "?") && strings.Contains(t, "null") && strings.HasPrefix(m.NullReturn, "ternary") {
 					nullReturns++
 				} else if strings.HasPrefix(t, "return") && strings.Contains(t, "null") && !m.NullCompare {
 					return fmt.Errorf("%s.%s: return expression mentions null: %s", c.Name, m.Name, t)
